@@ -101,7 +101,7 @@ Definition run (fields : list str) : list str :=
         match gcc_toks a with
         | None => [[78]]
         | Some l => str_of_bool (forallb tok_ok l) ::
-                    lenc (dedup (tok_incs l) []) ++ lenc (tok_sys l) ++ lenc (tok_defs l) ++
+                    lenc (dedup (tok_incs l)) ++ lenc (tok_sys l) ++ lenc (tok_defs l) ++
                     lenc (sort_set (tok_undefs l)) ++ [tok_std l]
         end
       else if str_eqb tag t_gccm then
